@@ -51,10 +51,11 @@ type hist struct {
 	sawEnd  []bool           // per output: consumer observed the close
 	inputs  []func() (closed bool, buffered int, name string)
 	outputs []func() (closed bool, closes int, name string)
+	noOrder map[string]bool // inputs whose items may overtake each other (the same channel given twice)
 }
 
 func newHist(nout int) *hist {
-	return &hist{sent: map[string][]int{}, recv: make([][]int, nout), sawEnd: make([]bool, nout)}
+	return &hist{sent: map[string][]int{}, recv: make([][]int, nout), sawEnd: make([]bool, nout), noOrder: map[string]bool{}}
 }
 
 func (h *hist) addInput(ch *Chan[int]) {
@@ -180,7 +181,7 @@ func (h *hist) check(o *Outcome, wholeOrder bool, mapBack func(int) int) {
 				return
 			}
 			seen[it] = true
-			if ip[1] != next[ip[0]] {
+			if ip[1] != next[ip[0]] && !h.noOrder[h.order[ip[0]]] {
 				o.Class, o.Detail = "order", fmt.Sprintf("output %d delivered item %d (position %d of input %s) when position %d was next", oi, it, ip[1], h.order[ip[0]], next[ip[0]])
 				return
 			}
@@ -418,9 +419,13 @@ func init() {
 			counts, caps := drawInputs(cf, n, 4)
 			nilSlice := n == 0 && cf.Bool()
 			late := cf.Bool() // producers started after the call
-			s := New(simConfig(cf, opsBound(counts), trace), ts.Fork("sched"))
+			dup := -1
+			if cf.Intn(6) == 0 {
+				dup = cf.Intn(64)
+			}
+			s := New(simConfig(cf, opsBound(counts)+8, trace), ts.Fork("sched"))
 			h := newHist(1)
-			o := &Outcome{Decoded: map[string]any{"inputs": n, "items": counts, "caps": caps, "nil_slice": nilSlice, "late_producers": late}}
+			o := &Outcome{Decoded: map[string]any{"inputs": n, "items": counts, "caps": caps, "nil_slice": nilSlice, "late_producers": late, "same_channel_twice": dup}}
 			f := s.Run(func() {
 				ins := []*Chan[int]{}
 				if nilSlice {
@@ -432,6 +437,15 @@ func init() {
 					ins = append(ins, c)
 					h.addInput(c)
 					prods = append(prods, h.producer(c, itemsOf(i, counts[i])))
+				}
+				if dup >= 0 && n > 0 {
+					// the same channel at two positions of the slice: two readers share it, so its
+					// items may overtake each other (order is not judged for it), everything else holds
+					d := dup % n
+					at := (dup / n) % (n + 1)
+					ins = append(ins[:at:at], append([]*Chan[int]{ins[d]}, ins[at:]...)...)
+					h.noOrder[NameOf(ins[at])] = true
+					Probe("input.same_channel_twice")
 				}
 				if !late {
 					for _, p := range prods {
